@@ -2,7 +2,7 @@
    encode the observation.  [run] is what the extracted CLI calls; [judge] applies the
    executable property predicates of Spec.v to an observation made on the IMPLEMENTATION. *)
 From Coq Require Import List Ascii String ZArith Bool.
-From Model Require Import Bytes Wire Glob StaticRoute RoundRobin Pins Resolver SendFault Codec Message Spec SpecC14 SpecC16 SpecC15 SpecC19 SpecC05 SpecC20 RunProxy RunBufio SpecProxy.
+From Model Require Import Bytes Wire Glob StaticRoute RoundRobin Pins Resolver SendFault Codec Message Spec SpecC14 SpecC16 SpecC15 SpecC19 SpecC05 SpecC20 RunProxy RunBufio SpecProxy SpecProxy2.
 Import ListNotations.
 
 Definition decode_error : list bytes := [s2b "decode-error"].
@@ -289,4 +289,7 @@ Definition judge (comp : bytes) (args : list bytes) : list bytes :=
   else if beq comp (s2b "proxy-C06") then judge_proxy_with judge_C06_event args
   else if beq comp (s2b "proxy-C07") then judge_proxy_with judge_C07_event args
   else if beq comp (s2b "proxy-C13") then judge_proxy_with judge_C13_event args
+  else if beq comp (s2b "proxy-C04") then judge_proxy_hist 0 args
+  else if beq comp (s2b "proxy-C12") then judge_proxy_hist 1 args
+  else if beq comp (s2b "proxy-C17") then judge_proxy_twin args
   else match judge_bufio comp args with Some r => r | None => [s2b "unknown-component"] end.
